@@ -10,14 +10,17 @@ def run(tier, seed, replay=None):
     wd = workdir("C19")
     mc = tlc_must_pass("Cli", "CliMC.cfg", workers=1, timeout=600)
     rep.add_tlc(mc)
+    # vacuity: opening the output files without truncation must violate AcceptComplete in the same model
+    leg = tlc_must_fail("Cli", "CliLegacy.cfg", expect="AcceptComplete", workers=2)
+    rep.add_tlc(leg)
     scen = []
     for p in mc.prints:
         p = p.strip('"').replace('\\"', '"')
-        m = re.match(r'<<"SCEN", "(\w+)", "(\w+)", "(\w+)", "(\w+)", "(\w+)", "(\w+)", (TRUE|FALSE), (TRUE|FALSE), "(\w+)">>', p)
+        m = re.match(r'<<"SCEN", "(\w+)", "(\w+)", "(\w+)", "(\w+)", "(\w+)", "(\w+)", (TRUE|FALSE), (TRUE|FALSE), "(\w+)", (TRUE|FALSE)>>', p)
         if m:
             g = m.groups()
-            scen.append([g[0], g[1], g[2], g[3], g[4], g[5], g[6] == "TRUE", g[7] == "TRUE", g[8]])
-    if len(scen) < 6000:
+            scen.append([g[0], g[1], g[2], g[3], g[4], g[5], g[6] == "TRUE", g[7] == "TRUE", g[8], g[9] == "TRUE"])
+    if len(scen) < 12000:
         raise ToolError(f"model emitted only {len(scen)} scenarios")
     rnd = random.Random(seed)
     accepted = [s for s in scen if s[8] == "done"]
@@ -25,7 +28,7 @@ def run(tier, seed, replay=None):
     # every accepted scenario (48) several times + a seeded sample of the rejected ones,
     # biased to exactly one bad field (the interesting boundary)
     one_bad = [s for s in rejected if sum(1 for i in range(5) if s[i] in ("oor", "bad")) + (s[5] in ("missing", "corrupt", "oorfile")) == 1]
-    k_acc, k_one, k_rej = (12, 1500, 1500) if tier == "thorough" else (3, 160, 120)
+    k_acc, k_one, k_rej = (6, 1500, 1500) if tier == "thorough" else (2, 160, 120)
     chosen = accepted * k_acc + rnd.sample(one_bad, min(k_one, len(one_bad))) + rnd.sample(rejected, min(k_rej, len(rejected)))
     rnd.shuffle(chosen)
     sfile = os.path.join(wd, "scen.json")
@@ -43,7 +46,7 @@ def run(tier, seed, replay=None):
     rep.traces = matched
     rep.evaluations = n
     rep.distinct_nontrivial = len({json.dumps(e["sc"], sort_keys=True) for e in events if e["ev"] == "cli"})
-    rep.rule = ("the model's 6480 scenarios (field classes x -o/-p/-i x input-file states) are sampled: every accepted scenario several times with "
+    rep.rule = ("the model's 12960 scenarios (field classes x -o/-p/-i x input-file states) are sampled: every accepted scenario several times with "
                 "seeded concrete values (negative coordinates, 9 methods, 1..400-day and reversed ranges, custom parameter files) + rejected ones "
                 "(biased to exactly one bad field); each is run against the binary built from /repo; distinct_nontrivial = distinct abstract scenarios run")
     rep.extra["scenarios_in_model"] = len(scen)
